@@ -231,6 +231,13 @@ def check(run: Run) -> None:
                     if any(isinstance(c, ast.Compare) and len(c.ops) == 1 and isinstance(c.ops[0], ast.Eq) and ast.unparse(c.left) == f"{g.target.id}.key" and names_in(c.comparators[0]) & key_derived for c in facts):
                         if sum(1 for m in walk_no_nested(fi.node) if isinstance(m, ast.Assign) and any(is_name(t, n.targets[0].id) for t in m.targets)) == 1:
                             found_by_key.add(n.targets[0].id)
+        def key_expr_ok(k: ast.AST) -> bool:
+            # the request key itself, a local derived from it, or a pure slice / subscript of it (`key[5:]`, `key[len("META."):]`)
+            if isinstance(k, ast.Name):
+                return k.id in key_derived
+            nm = names_in(k)
+            return bool(nm & key_derived) and nm <= key_derived | {"len"} and not any(isinstance(x, ast.Call) and not (isinstance(x.func, ast.Name) and x.func.id == "len") for x in ast.walk(k))
+
         writes = list(am.ast_writes(fi, res))
         cons = list(am.constructions(fi))
         n_store = 0
@@ -304,13 +311,13 @@ def check(run: Run) -> None:
                         run.violation("R18.5", wm, qual, st, "an assignment's value is overwritten without its key having been compared with the request key: unmentioned fields can change")
                 if fld == "meta" and kind == "item-store":
                     k = node.slice  # type: ignore[attr-defined]
-                    ok_k = isinstance(k, ast.Name) and k.id in key_derived
+                    ok_k = key_expr_ok(k)
                     run.instance("R18.5", wm.loc(node), f"{qual}: META item store keyed by the request key `{ast.unparse(k)}`", ok=ok_k)
                     if not ok_k:
                         run.violation("R18.5", wm, qual, st, "a META field other than the one named in the request is written")
             elif kind in ("item-store",) and isinstance(st, ast.Delete):
                 k = node.slice  # type: ignore[attr-defined]
-                ok = sentinel(None, True) and isinstance(k, ast.Name) and k.id in key_derived
+                ok = sentinel(None, True) and key_expr_ok(k)
                 run.instance("R18.3", wm.loc(node), f"{qual}: `{norm(st)}` deletes exactly the named META key under the DELETE sentinel", ok=ok)
                 if not ok:
                     run.violation("R18.3", wm, qual, st, "a META key is deleted outside the DELETE-sentinel path or is not the key named in the request")
@@ -318,7 +325,7 @@ def check(run: Run) -> None:
                 call = node
                 meth = call.func.attr  # type: ignore[attr-defined]
                 if meth == "pop" and fld == "meta":
-                    ok = sentinel(None, True) and call.args and isinstance(call.args[0], ast.Name) and call.args[0].id in key_derived  # type: ignore[attr-defined]
+                    ok = sentinel(None, True) and call.args and key_expr_ok(call.args[0])  # type: ignore[attr-defined]
                     run.instance("R18.3", wm.loc(node), f"{qual}: `{norm(call)}` removes exactly the named META key under the DELETE sentinel", ok=bool(ok))
                     if not ok:
                         run.violation("R18.3", wm, qual, call, "META.pop outside the DELETE-sentinel path or with a key other than the request key")
